@@ -146,6 +146,51 @@ def main(tier):
             fail(kind='not-the-optimum', f=f, f_opt=best[0], x=x.tolist(), x_opt=best[1].tolist(), **desc)
         if len(samples) < 2:
             samples.append(dict(desc, x=np.round(x, 6).tolist(), f=f))
+    # ---- histories: the SAME problem/driver run again after a non-design input (the constraint matrix) changed ----
+    A2 = np.array([[0.5, 1.0, 0.0], [1.0, 0.0, -1.0], [0.0, 2.0, 1.0]])
+    for opt, linear, kw in itertools.product(('SLSQP', 'trust-constr'), (False, True),
+                                            (dict(upper=np.array([1.0, INF, 0.5])), dict(lower=-1.0, upper=np.array([0.5, 1.5, INF])), dict(upper=-3.0, indices=[2]))):
+        ev += 1
+        desc = dict(opt=opt, linear=linear, bounds={k: (v.tolist() if isinstance(v, np.ndarray) else v) for k, v in kw.items()}, history='run_driver, set_val(A), run_driver')
+        try:
+            ckw = dict(kw)
+            if linear:
+                ckw['linear'] = True
+            p = om.Problem(reports=False)
+            p.model.add_subsystem('c', om.ExecComp('y = A @ x', A=A, x=np.zeros(3), y=np.zeros(3)), promotes=['*'])
+            p.model.add_subsystem('o', om.ExecComp('f = sum((x - t)**2)', x=np.zeros(3), t=t), promotes=['*'])
+            p.model.add_design_var('x', lower=-10, upper=10)
+            p.model.add_objective('f')
+            p.model.add_constraint('y', **ckw)
+            p.driver = om.ScipyOptimizeDriver(optimizer=opt, disp=False, maxiter=1000, tol=1e-10)
+            p.setup()
+            p.run_driver()
+            p.set_val('A', A2)
+            p.set_val('x', np.zeros(3))
+            p.run_driver()
+        except Exception as e:      # noqa
+            nraised += 1
+            continue
+        res = p.driver.result
+        if not (bool(res.success) if hasattr(res, 'success') else not p.driver.fail):
+            continue
+        nsuccess += 1
+        nontrivial += 1
+        idx = kw.get('indices')
+        sel = list(range(3)) if idx is None else idx
+        x = p.get_val('x')
+        y = (A2 @ x)[sel]
+        lo = np.broadcast_to(kw.get('lower', -INF), (len(sel),)).astype(float)
+        up = np.broadcast_to(kw.get('upper', INF), (len(sel),)).astype(float)
+        lo = np.where(lo <= -INF, -np.inf, lo)
+        up = np.where(up >= INF, np.inf, up)
+        if np.any(y < lo - 2e-5) or np.any(y > up + 2e-5):
+            fail(kind='success-but-infeasible', x=x.tolist(), y=y.tolist(), lower=lo.tolist(), upper=up.tolist(), **desc)
+            continue
+        best = qp_optimum(t, A2[sel], lo, up)
+        f = float(np.sum((x - t) ** 2))
+        if best is not None and abs(f - best[0]) > 2e-3 * max(1.0, best[0]):
+            fail(kind='not-the-optimum', f=f, f_opt=best[0], x=x.tolist(), x_opt=best[1].tolist(), **desc)
     print(json.dumps({'evaluations': ev, 'distinct_nontrivial': nontrivial, 'successes': nsuccess, 'n_failures': len(fails), 'driver_raised': nraised, 'driver_raised_examples': raised,
                       'failures': [f for f in fails if f], 'samples': samples}, default=str))
 
